@@ -181,6 +181,168 @@ pub fn check(c: &Case, rec: &mut Rec) -> CheckResult {
     Ok(())
 }
 
+/// Short query, large distance; keys are the query padded with `fill` characters to lengths
+/// around the distance.
+fn check_large_d(q: &[char], d: u32, fill: char, shapes: &[(u8, usize)], rec: &mut Rec) -> CheckResult {
+    let qstr: String = q.iter().collect();
+    let lev = match crate::engine::catch(|| Levenshtein::new_with_limit(&qstr, d, 300_000)) {
+        Ok(Ok(l)) => l,
+        Ok(Err(_)) => {
+            rec.class("over_300k_states(skipped)");
+            return Ok(());
+        }
+        Err(p) => vfail!("panic", "Levenshtein::new_with_limit({:?}, {}, 300000) panicked: {}", qstr, d, p),
+    };
+    let d = d as usize;
+    for &(shape, at) in shapes {
+        // number of fill characters: just inside / on / just outside the distance
+        let n = match shape {
+            0 => d.saturating_sub(1),
+            1 => d,
+            2 => d + 1,
+            3 => d + q.len(),
+            4 => d + q.len() + 1,
+            _ => d / 2,
+        };
+        let mut k: Vec<char> = q.to_vec();
+        let pos = if k.is_empty() { 0 } else { at % (k.len() + 1) };
+        for _ in 0..n {
+            k.insert(pos, fill);
+        }
+        for key in [k.clone(), std::iter::repeat(fill).take(n).collect::<Vec<char>>()] {
+            rec.eval();
+            let ks: String = key.iter().collect();
+            decide(&lev, q, d as u32, &ks)?;
+            if !rec.muted {
+                rec.nontrivial(H::new().b(qstr.as_bytes()).u(d as u64).b(ks.as_bytes()).get());
+                if d > 255 {
+                    rec.class("distance_over_255");
+                }
+            }
+        }
+    }
+    Ok(())
+}
+
+/// Break a valid string into one that is not UTF-8.
+fn break_utf8(w: &str, how: u8, pos: usize) -> Vec<u8> {
+    let mut b = w.as_bytes().to_vec();
+    let at = if b.is_empty() { 0 } else { pos % (b.len() + 1) };
+    match how {
+        0 => {
+            // cut the last multi-byte character short (or append a lone lead byte)
+            if b.last().map(|x| *x >= 0x80).unwrap_or(false) {
+                b.pop();
+            } else {
+                b.push(0xc3);
+            }
+        }
+        1 => b.insert(at, 0x80),
+        2 => b.insert(at, 0xbf),
+        3 => b.insert(at, 0xff),
+        4 => b.splice(at..at, [0xc0, 0xaf]).for_each(drop),
+        5 => b.splice(at..at, [0xed, 0xa0, 0x80]).for_each(drop),
+        6 => b.splice(at..at, [0xf4, 0x90, 0x80, 0x80]).for_each(drop),
+        7 => b.splice(at..at, [0xe0, 0x80, 0x80]).for_each(drop),
+        8 => b.push(0xe2),
+        9 => b.splice(at..at, [0xf0, 0x9f]).for_each(drop),
+        10 => b.push(0xf0),
+        _ => b.splice(at..at, [0xe2, 0x98]).for_each(drop),
+    }
+    b
+}
+
+fn check_non_utf8(q: &str, d: u32, ks: &[(String, u8, usize)], rec: &mut Rec) -> CheckResult {
+    let qc: Vec<char> = q.chars().collect();
+    let lev = match crate::engine::catch(|| Levenshtein::new(q, d)) {
+        Ok(Ok(l)) => l,
+        Ok(Err(_)) => return Ok(()),
+        Err(p) => vfail!("panic", "Levenshtein::new({:?}, {}) panicked: {}", q, d, p),
+    };
+    let mut keys: Vec<Vec<u8>> = vec![q.as_bytes().to_vec()];
+    for (w, how, pos) in ks {
+        keys.push(w.as_bytes().to_vec());
+        keys.push(break_utf8(w, *how, *pos));
+        // the query itself, broken: the likeliest false match
+        keys.push(break_utf8(q, *how, *pos));
+    }
+    keys.sort();
+    keys.dedup();
+    let mut want: Vec<Vec<u8>> = vec![];
+    let mut invalid = 0;
+    for k in &keys {
+        rec.eval();
+        let mut st = lev.start();
+        for &b in k {
+            st = lev.accept(&st, b);
+        }
+        let got = lev.is_match(&st);
+        match std::str::from_utf8(k) {
+            Ok(ks) => {
+                let kc: Vec<char> = ks.chars().collect();
+                let w = editdist(&qc, &kc) <= d as usize;
+                vensure!(got == w, "lev-mismatch", "Levenshtein({:?}, {}) {} key {:?} but the edit distance is {}", q, d, if got { "accepts" } else { "rejects" }, ks, editdist(&qc, &kc));
+                if w {
+                    want.push(k.clone());
+                }
+            }
+            Err(_) => {
+                invalid += 1;
+                vensure!(!got, "lev-matches-invalid-utf8", "Levenshtein({:?}, {}) accepts the byte string {} which is not UTF-8 and so has no edit distance in scalar values", q, d, crate::engine::show(k));
+            }
+        }
+    }
+    let pairs: gen::Pairs = keys.iter().map(|k| (k.clone(), 0)).collect();
+    let bytes = gen::build_plain(&pairs, true).map_err(|e| Fail::new("build-error", e))?;
+    let set = fst::Set::new(&bytes[..]).map_err(|e| Fail::new("open-failed", format!("{:?}", e)))?;
+    use fst::IntoStreamer;
+    let got = set.search(&lev).into_stream().into_bytes();
+    vensure!(got == want, "lev-search", "Set::search(Levenshtein({:?},{})) over a set with {} non-UTF-8 keys yields {:?} but the valid keys within the distance are {:?}", q, d, invalid, got.iter().map(|k| crate::engine::show(k)).collect::<Vec<_>>(), want.iter().map(|k| crate::engine::show(k)).collect::<Vec<_>>());
+    if !rec.muted && invalid > 0 {
+        rec.class("invalid_utf8_key_in_set");
+        rec.nontrivial(H::new().b(q.as_bytes()).u(d as u64).u(crate::engine::fnv(&bytes)).get());
+    }
+    Ok(())
+}
+
+/// Long query: default-limit consistency, then the query under a few generated edits.
+fn check_long(q: &Vec<char>, d: &u32, edits: &Vec<(usize, usize, u8)>, rec: &mut Rec) -> CheckResult {
+    let qstr: String = q.iter().collect();
+    let full = match Levenshtein::new_with_limit(&qstr, *d, 400_000) {
+        Ok(l) => l,
+        Err(_) => {
+            rec.class("over_400k_states(skipped)");
+            return Ok(());
+        }
+    };
+    let s = full.verif_num_states();
+    let dflt = Levenshtein::new(&qstr, *d);
+    vensure!(dflt.is_ok() == (s <= 10_000), "lev-default-limit", "Levenshtein::new({:?},{}) returned {} but the construction needs {} states (default limit 10000)", qstr, d, if dflt.is_ok() { "Ok" } else { "TooManyStates" }, s);
+    rec.class(if s > 10_000 { "needs_more_than_default_limit" } else { "within_default_limit" });
+    // keys: the query under a few generated edits
+    let mut keys: Vec<Vec<char>> = vec![q.clone(), vec![]];
+    let mut cur = q.clone();
+    for (pos, ch, op) in edits {
+        let p = if cur.is_empty() { 0 } else { pos % cur.len() };
+        match op {
+            0 if !cur.is_empty() => cur[p] = SIGMA[*ch],
+            1 => cur.insert(p, SIGMA[*ch]),
+            _ if !cur.is_empty() => {
+                cur.remove(p);
+            }
+            _ => {}
+        }
+        keys.push(cur.clone());
+    }
+    for k in keys {
+        rec.eval();
+        let ks: String = k.iter().collect();
+        decide(&full, q, *d, &ks)?;
+        rec.nontrivial(H::new().b(qstr.as_bytes()).u(*d as u64).b(ks.as_bytes()).get());
+    }
+    Ok(())
+}
+
 fn check_limits(q: &str, d: u32, rec: &mut Rec) -> CheckResult {
     let full = match Levenshtein::new_with_limit(q, d, usize::MAX) {
         Ok(l) => l,
@@ -341,43 +503,8 @@ pub fn run(e: &Engine) {
         "long-queries-and-default-limit",
         e.tier.pick(300, 6_000),
         || (prop_oneof![3 => proptest::collection::vec(prop_oneof![4 => (0usize..8).prop_map(|i| SIGMA[i]), 1 => Just('b')], 6..=14), 2 => proptest::collection::vec(prop_oneof![(0usize..8).prop_map(|i| SIGMA[i]), (b'a'..=b'z').prop_map(|c| c as char)], 15..=26)], 0u32..=4, proptest::collection::vec((0usize..14, 0usize..8, 0u8..3), 0..12)),
-        |(q, d, _)| json!({"q": q.iter().collect::<String>(), "d": d}),
-        |(q, d, edits), rec| {
-            let qstr: String = q.iter().collect();
-            let full = match Levenshtein::new_with_limit(&qstr, *d, 400_000) {
-                Ok(l) => l,
-                Err(_) => {
-                    rec.class("over_400k_states(skipped)");
-                    return Ok(());
-                }
-            };
-            let s = full.verif_num_states();
-            let dflt = Levenshtein::new(&qstr, *d);
-            vensure!(dflt.is_ok() == (s <= 10_000), "lev-default-limit", "Levenshtein::new({:?},{}) returned {} but the construction needs {} states (default limit 10000)", qstr, d, if dflt.is_ok() { "Ok" } else { "TooManyStates" }, s);
-            rec.class(if s > 10_000 { "needs_more_than_default_limit" } else { "within_default_limit" });
-            // keys: the query under a few generated edits
-            let mut keys: Vec<Vec<char>> = vec![q.clone(), vec![]];
-            let mut cur = q.clone();
-            for (pos, ch, op) in edits {
-                let p = if cur.is_empty() { 0 } else { pos % cur.len() };
-                match op {
-                    0 if !cur.is_empty() => cur[p] = SIGMA[*ch],
-                    1 => cur.insert(p, SIGMA[*ch]),
-                    _ if !cur.is_empty() => {
-                        cur.remove(p);
-                    }
-                    _ => {}
-                }
-                keys.push(cur.clone());
-            }
-            for k in keys {
-                rec.eval();
-                let ks: String = k.iter().collect();
-                decide(&full, q, *d, &ks)?;
-                rec.nontrivial(H::new().b(qstr.as_bytes()).u(*d as u64).b(ks.as_bytes()).get());
-            }
-            Ok(())
-        },
+        |(q, d, edits)| json!({"long": {"q": q.iter().collect::<String>(), "d": d, "edits": edits.iter().map(|(a, b, c)| json!([a, b, c])).collect::<Vec<_>>()}}),
+        |(q, d, edits), rec| check_long(q, d, edits, rec),
     );
     // state limits
     e.run_enum("state-limits-0..S+2", 73 * 3, |idx, rec| {
@@ -412,11 +539,39 @@ pub fn run(e: &Engine) {
         |c| c.to_json(),
         check,
     );
+    // large distances with short queries: the automaton stays small (about d states) while the
+    // distance passes 8-bit and other internal widths
+    e.run_prop(
+        "large-distances-short-queries",
+        e.tier.pick(160, 3_000),
+        || {
+            (
+                proptest::collection::vec(prop_oneof![3 => (0usize..8).prop_map(|i| SIGMA[i]), 1 => Just('b')], 0..=3),
+                prop_oneof![4 => 3u32..=9, 1 => Just(100u32), 2 => 253u32..=258, 1 => Just(300u32), 1 => Just(511u32), 1 => Just(512u32), 1 => Just(1000u32)],
+                prop_oneof![Just('z'), Just('é'), Just('☃'), Just('😀')],
+                proptest::collection::vec((0u8..6, 0usize..4), 1..6),
+            )
+        },
+        |(q, d, fill, shapes)| json!({"large_d": {"q": q.iter().collect::<String>(), "d": d, "fill": fill.to_string(), "shapes": shapes.iter().map(|(a, b)| json!([a, b])).collect::<Vec<_>>()}}),
+        |(q, d, fill, shapes), rec| check_large_d(q, *d, *fill, shapes, rec),
+    );
+    // sets may hold keys that are not UTF-8 at all: such a key is not within any edit distance
+    // counted in scalar values, so a search returns exactly the valid keys within the distance
+    e.run_prop(
+        "keys-that-are-not-utf8",
+        e.tier.pick(3_000, 100_000),
+        || {
+            let w = proptest::collection::vec((0usize..8).prop_map(|i| SIGMA[i]), 0..=4).prop_map(|v| v.into_iter().collect::<String>());
+            (w.clone(), 0u32..=2, proptest::collection::vec((w, 0u8..12, 0usize..6), 1..10))
+        },
+        |(q, d, ks)| json!({"non_utf8": {"q": q, "d": d, "keys": ks.iter().map(|(w, m, p)| json!([w, m, p])).collect::<Vec<_>>()}}),
+        |(q, d, ks), rec| check_non_utf8(q, *d, ks, rec),
+    );
     for cls in ["needs_more_than_default_limit"] {
         // how many states a construction needs is the implementation's business
         e.expect_class(cls, 1);
     }
-    for cls in ["shared_lead_byte_pair", "limit_sufficient", "limit_exceeded", "utf8_boundary_alphabet", "within_default_limit"] {
+    for cls in ["shared_lead_byte_pair", "limit_sufficient", "limit_exceeded", "utf8_boundary_alphabet", "within_default_limit", "distance_over_255", "invalid_utf8_key_in_set"] {
         e.require_class(cls, 1);
     }
 }
@@ -424,7 +579,23 @@ pub fn run(e: &Engine) {
 pub fn replay(_sub: &str, case: &Value) -> Option<CheckResult> {
     let mut rec = Rec::new(0);
     Some(crate::engine::guarded(|| {
-        if let Some(l) = case.get("limits_for") {
+        if let Some(l) = case.get("long") {
+            let q: Vec<char> = l.get("q").and_then(|x| x.as_str()).ok_or_else(bad)?.chars().collect();
+            let d = l.get("d").and_then(|x| x.as_u64()).ok_or_else(bad)? as u32;
+            let edits: Vec<(usize, usize, u8)> = l.get("edits").and_then(|x| x.as_array()).ok_or_else(bad)?.iter().map(|p| Some((p.get(0)?.as_u64()? as usize, p.get(1)?.as_u64()? as usize, p.get(2)?.as_u64()? as u8))).collect::<Option<Vec<_>>>().ok_or_else(bad)?;
+            check_long(&q, &d, &edits, &mut rec)
+        } else if let Some(l) = case.get("large_d") {
+            let q: Vec<char> = l.get("q").and_then(|x| x.as_str()).ok_or_else(bad)?.chars().collect();
+            let d = l.get("d").and_then(|x| x.as_u64()).ok_or_else(bad)? as u32;
+            let fill = l.get("fill").and_then(|x| x.as_str()).and_then(|s| s.chars().next()).ok_or_else(bad)?;
+            let shapes: Vec<(u8, usize)> = l.get("shapes").and_then(|x| x.as_array()).ok_or_else(bad)?.iter().map(|p| Some((p.get(0)?.as_u64()? as u8, p.get(1)?.as_u64()? as usize))).collect::<Option<Vec<_>>>().ok_or_else(bad)?;
+            check_large_d(&q, d, fill, &shapes, &mut rec)
+        } else if let Some(l) = case.get("non_utf8") {
+            let q = l.get("q").and_then(|x| x.as_str()).ok_or_else(bad)?;
+            let d = l.get("d").and_then(|x| x.as_u64()).ok_or_else(bad)? as u32;
+            let ks: Vec<(String, u8, usize)> = l.get("keys").and_then(|x| x.as_array()).ok_or_else(bad)?.iter().map(|p| Some((p.get(0)?.as_str()?.to_string(), p.get(1)?.as_u64()? as u8, p.get(2)?.as_u64()? as usize))).collect::<Option<Vec<_>>>().ok_or_else(bad)?;
+            check_non_utf8(q, d, &ks, &mut rec)
+        } else if let Some(l) = case.get("limits_for") {
             check_limits(l.get(0).and_then(|x| x.as_str()).ok_or_else(bad)?, l.get(1).and_then(|x| x.as_u64()).ok_or_else(bad)? as u32, &mut rec)
         } else {
             check(&Case::from_json(case).ok_or_else(bad)?, &mut rec)
